@@ -171,6 +171,7 @@ package validate
 // `a && b` checks b under the capabilities of a merged into the incoming ones: merge is the union.
 //@ func (capabilitySet) merge
 //@   props C15
+//@   pure
 //@   requires !isnil(cs) && capOK(cs) && capOK(other)
 //@   results out
 //@   ensures !isnil(out) && capOK(out)
@@ -232,3 +233,23 @@ package validate
 //@   ensures exact: r == descA(v.schema.Actions, actionUID, ancestorUID)
 //@   loop 1
 //@     invariant forall p types.EntityUID :: $done[p] ==> (p != ancestorUID && !descA(v.schema.Actions, p, ancestorUID))
+
+// Capability flow through `if c then a else b` (C15): what the guard established holds in the then-branch
+// only (thenIn: the incoming capabilities merged with the guard's); the else-branch is always checked under
+// the capabilities the whole expression started with. A guard typed False (True) makes the result the
+// else (then) branch's type and capabilities; otherwise only the capabilities both branches establish
+// survive. typeOfExpr is the opaque, trusted recursion into the sub-expressions.
+//@ spec func thenIn(v *Validator, env *requestEnv, n ast.NodeTypeIfThenElse, caps capabilitySet) capabilitySet = caps.merge#0(v.typeOfExpr#1(env, n.If, caps))
+//@ func (Validator) typeOfIfThenElse
+//@   props C15
+//@   noinline validateEntityRefs leastUpperBound checkStrictEntityLUB
+//@   requires !isnil(caps) && capOK(caps)
+//@   results t, outCaps, err
+//@   ensures guard_false: (err == nil && (v.typeOfExpr#0(env, n.If, caps) is typeFalse)) ==> (t == v.typeOfExpr#0(env, n.Else, caps) && outCaps == v.typeOfExpr#1(env, n.Else, caps))
+//@   ensures guard_true: (err == nil && (v.typeOfExpr#0(env, n.If, caps) is typeTrue)) ==> (t == v.typeOfExpr#0(env, n.Then, thenIn(v, env, n, caps)) && outCaps == v.typeOfExpr#1(env, n.Then, thenIn(v, env, n, caps)))
+//@   ensures guard_open: (err == nil && !(v.typeOfExpr#0(env, n.If, caps) is typeFalse) && !(v.typeOfExpr#0(env, n.If, caps) is typeTrue)) ==> (forall c capability :: capIn(outCaps, c) == (capIn(v.typeOfExpr#1(env, n.Then, thenIn(v, env, n, caps)), c) && capIn(v.typeOfExpr#1(env, n.Else, caps), c)))
+//@ func collectErrors
+//@   props C15
+//@   modifies errs
+//@   requires errs != nil && err != nil
+//@   ensures grows: len(*errs) > len(old(*errs)) && (exists j int :: 0 <= j && j < len(*errs) && (*errs)[j] != nil)
